@@ -334,6 +334,14 @@ func RunRandomTriples(c *core.Ctx) {
 	if ms := nb.Mutations(r); len(ms) > 0 && r.Chance(2, 3) {
 		nc = ms[r.Intn(len(ms))].Node
 	}
+	if r.Chance(1, 10) {
+		// wide, shallow values: many elements, little depth
+		na = GenWide(r)
+		nb, nc = na.clone(), na.clone()
+		if ms := na.Mutations(r); len(ms) > 1 {
+			nb, nc = ms[0].Node, ms[len(ms)-1].Node
+		}
+	}
 	nodes := []*Node{na, nb, nc}
 	vals := make([]any, 3)
 	copies := make([]any, 3)
@@ -399,9 +407,32 @@ func RunRandomTriples(c *core.Ctx) {
 }
 
 // RunCopiesAndMutations (C08): rebuilt copy equal, every single-point mutation unequal.
+// GenWide draws a wide, shallow recipe: many siblings (up to 40), each a small
+// container - the traversal depth stays tiny however many elements are visited.
+func GenWide(r *core.Rng) *Node {
+	n := r.Range(10, 40)
+	var nd *Node
+	if r.Chance(1, 3) {
+		nd = &Node{Kind: mapKinds[r.Intn(len(mapKinds))]}
+		for i := 0; i < n; i++ {
+			nd.Keys = append(nd.Keys, fmt.Sprintf("key%02d", i))
+		}
+	} else {
+		nd = &Node{Kind: []string{"slice", "array", "list"}[r.Intn(3)]}
+	}
+	for i := 0; i < n; i++ {
+		nd.Kids = append(nd.Kids, Gen(r, 1))
+	}
+	return nd
+}
+
 func RunCopiesAndMutations(c *core.Ctx) {
 	r := c.Rng
 	n := Gen(r, r.Range(1, 3))
+	if r.Chance(1, 8) {
+		n = GenWide(r)
+		c.Cover("wide-values")
+	}
 	v := n.Build(nil)
 	cp := n.Build(r)
 	coll := age.Collator[any]().Make()
